@@ -98,6 +98,21 @@ claim("C16", "other",
       "below 0.25, sustain clock reset whenever ewma <= 0.55; the seed guard is falsified by every post-seed store. Found defect F5 (re-seed from the floor), repaired.",
       "DESIGN.md 5 C16", "EWMA numerics and strict positivity of the RTT average are not decided; float comparisons are treated as monotone real arithmetic.")
 
+claim("C09", "other",
+      "skip-condition path formulas over the packet-type atoms (with == exclusion theory), value reconstruction of the queued copy, CFG must-reach for delivery, who-may-write for the proof stamp, panic reachability discharged by interval/length abstract interpretation",
+      "Exact dispatch: a datagram is not queued for the client only if it is < 2 bytes, a registration reply (exactly REG_NGP/REG2/REG3/REG_ERR), an SRTLA ACK or a keepalive, and none of those is ever queued; "
+      "what is queued (and what the ACK fast path sends) is a copy of the whole reader slice; a processed datagram always reaches process_connection_events, whose loop sends every queued element once a "
+      "client address is known; every non-registration datagram stamps last_received; delivery proof is stamped only by an earned SRTLA ACK / an answered keepalive and cleared only by the link reset; "
+      "all 46 may-panic sites (bounds, slice ranges, copy lengths, unwraps) in the 90 bodies reachable from handle_uplink_packet / drain_packet_queue are discharged.",
+      "DESIGN.md 5 C09", "OS delivery of send_to is not decided; overflow asserts (dev profile only) are a thorough-tier obligation.")
+claim("C13", "other",
+      "guard entailment (BDD path conditions) for engage / release / dwell / pull stores, skip-path formula for dwell continuity, must-dominate + full-slice loop for 'driven on every pass', information-flow (read set of the release predicate vs write sets of broadcast handlers)",
+      "The latch engages only under is_stalled | (pulled & proof fully stale) from the un-latched state, and is_stalled == connected & backlog >= min & proof != 0 & stale; the effective window formula and its "
+      "ceiling; release only with proof fresh, latched, not stalled and >= 2 x window since the dwell began; every decision with non-fresh proof or a re-engage restarts the dwell; pull then latch are driven for "
+      "every link on every guard-on pass; the pull is set only under is_briefly_silent and released only under spoke | !connected. D7 reports the reproduced defect F6 (release predicate reads RTT state that "
+      "cross-link ACK handlers write) as a KNOWN-FINDING.",
+      "DESIGN.md 5 C13", "The timed-trace consequences follow by induction from the single-step guards (stated, not derived).")
+
 NOT_APPLICABLE = {}
 ALL = ["C%02d" % i for i in range(1, 21)]
 
